@@ -158,13 +158,16 @@ CLAIMS = {
           "the oracle and the acceptor. K-6 shapes and a Tflush flushing itself are outside the quantifier.",
  },
  "C08": {
-  "technique": "Lean 4 proof (enabledness of every worker/reply step in every state = no head-of-line blocking; shared-tag queueing) + acceptor correspondence + blocked-subset and tag-group oracles",
+  "technique": "Lean 4 proof (enabledness of every worker/reply step in every state = no head-of-line blocking; tag-table invariant over all Tflush-free schedules: one at a time, executed and answered in arrival order) + acceptor correspondence + blocked-subset and tag-group oracles",
   "text": "no_head_of_line_worker, no_head_of_line_reply, writer_never_blocked, parking_disables_nothing (steps outside the implementation "
-          "are enabled whatever other requests do), shared_tag_queued and successor_started_after_reply_queued. Correspondence: subsets "
-          "parked in the implementation while others, late requests and another connection must complete; shared-tag groups executed and "
-          "answered in arrival order.",
-  "note": TB + "Full FIFO of a tag group as a model theorem (wire order = arrival order) is future work; it is decided by the oracle. "
-          "Real-time promptness is observed, not proved.",
+          "are enabled whatever other requests do). shared_tag_fifo_partial and tag_table_exact (invariant PI — 17 clauses: the table of "
+          "a tag is exactly its requests that have not left it, newest first; prev pointers name the next request of the tag; whoever "
+          "is started finds all older requests of its tag gone from the table — preserved by every event of a Tflush-free schedule, "
+          "together with the uniqueness invariant W3 of the winning Respond): requests under one tag are handed to the implementation "
+          "in arrival order, each only after its predecessor left the table, and answered in that order. Correspondence: subsets "
+          "parked in the implementation (also on a shared fid, another connection, late requests); shared-tag groups.",
+  "note": TB + "The FIFO theorem is partial: sessions without Tflush (LS.plain, stated in the theorem); a Tflush aimed at a tag group cuts "
+          "the chain (K-6) and is left to the correspondence. Real-time promptness is observed, not proved.",
  },
  "C11": {
   "technique": "Lean 4 proof (after close nothing blocks, nothing is accepted or written, close happens once) + acceptor correspondence + disconnect oracle (ConnClosed, FidDestroy, goroutine census, bystander)",
